@@ -61,8 +61,12 @@ def add_constant_term(spec, draw):
     e = des[draw(st.integers(0, len(des) - 1))]
     c = ["num", draw(st.sampled_from([0.5, 0.25, 1.5]))]
     k = draw(st.sampled_from([["const", "E"], ["const", "pi"], ["bin", "*", ["const", "E"], ["const", "pi"]],
-                              ["bin", "/", ["const", "pi"], ["const", "E"]]]))
-    e[2] = ["bin", draw(st.sampled_from(["+", "-"])), e[2], ["bin", "*", c, k]]
+                              ["bin", "/", ["const", "pi"], ["const", "E"]],
+                              # ratios of integer literals (written 1/4, 2/3: an integer division in typed languages)
+                              ["bin", "/", ["num", 1.0], ["num", 4.0]], ["bin", "/", ["num", 2.0], ["num", 3.0]]]))
+    # (a float factor would be folded into the ratio by sympy: the ratio stands alone)
+    term = k if (k[0] == "bin" and k[2][0] == "num") else ["bin", "*", c, k]
+    e[2] = ["bin", draw(st.sampled_from(["+", "-"])), e[2], term]
     return spec
 
 
